@@ -970,6 +970,9 @@ def exponential_binning(
         if data is None:
             raise ValueError("Cannot guess the range without data.")
         range = (np.log10(data.min()), np.log10(data.max()))
+    if not (np.isfinite(range[0]) and np.isfinite(range[1])):
+        # log10 of zero (or of a negative / infinite limit)
+        raise ValueError("Exponential bins require finite positive limits.")
     log_width = (range[1] - range[0]) / bin_count
     if not log_width > 0:
         raise ValueError(
